@@ -254,6 +254,69 @@ fn subset_scenarios(tier: Tier, oracles: Oracles, nmax: usize) -> Vec<Scenario> 
     out
 }
 
+/// Four-level tree (60 keys of 295 bytes: three per leaf, about three separators per branch page)
+/// with nested buckets; one transaction deletes a subset of a window of neighbouring entries and
+/// writes into the surviving nested buckets of (or, `touch_all`, outside) the window: merges of
+/// leaves, of branch nodes and of their parents in one commit, in both directions.
+fn window_subset_scenarios(tier: Tier, oracles: Oracles) -> Vec<Scenario> {
+    const N: usize = 60;
+    const NESTED: [usize; 3] = [8, 27, 50];
+    let key = |i: usize| format!("w{:03}*295", 2 * i + 1);
+    let mut ops = vec![OpSpec::bucket("create", &[], "b")];
+    for i in 0..N {
+        if NESTED.contains(&i) {
+            ops.push(OpSpec::bucket("create", &["b"], &key(i)));
+            ops.push(OpSpec::put(&["b", &key(i)], "colour", "green"));
+        } else {
+            ops.push(OpSpec::put(&["b"], &key(i), "v"));
+        }
+    }
+    let setup = vec![tx(ops), Action::Reopen];
+    let windows: Vec<(usize, usize, bool)> = if tier == Tier::Quick {
+        vec![(4, 9, false), (23, 9, false), (46, 9, true), (0, 8, false), (52, 8, true)]
+    } else {
+        let mut v: Vec<(usize, usize, bool)> = (0..18).map(|k| (3 * k, 9, k % 2 == 1)).collect();
+        v.extend([(3, 12, false), (24, 12, true), (48, 12, false)]);
+        v
+    };
+    let mut out = vec![];
+    for (start, width, touch_all) in windows {
+        let alpha = FnAlphabet {
+            n: 1usize << width,
+            f: move |mask: usize| {
+                let key = |i: usize| format!("w{:03}*295", 2 * i + 1);
+                let mut ops = vec![];
+                for &b in NESTED.iter() {
+                    let inside = b >= start && b < start + width;
+                    let deleted = inside && mask >> (b - start) & 1 == 1;
+                    if !deleted && (inside || touch_all) {
+                        ops.push(OpSpec::put(&["b", &key(b)], "colour", "blue"));
+                    }
+                }
+                for j in 0..width {
+                    let i = start + j;
+                    if i < N && mask >> j & 1 == 1 {
+                        if NESTED.contains(&i) {
+                            ops.push(OpSpec::bucket("delb", &["b"], &key(i)));
+                        } else {
+                            ops.push(OpSpec::del(&["b"], &key(i)));
+                        }
+                    }
+                }
+                if ops.is_empty() {
+                    ops.push(OpSpec::bucket("getb", &[], "b"));
+                }
+                Action::Tx { ops, commit: true }
+            },
+        };
+        let mut sc = Scenario::new(&format!("window-subset-4level-from{}-w{}{}", start, width, if touch_all { "-touch-all-nested" } else { "" }), Cfg::default(), setup.clone(), Box::new(alpha), 1, oracles);
+        sc.oracles.probe_after_commit = None;
+        sc.oracles.probe_in_tx_end = None;
+        out.push(sc);
+    }
+    out
+}
+
 /// Subset driver split over two transactions (deletes, then inserts), from every base.
 fn subset_split_scenarios(oracles: Oracles, nmax: usize) -> Vec<Scenario> {
     let mut out = vec![];
@@ -576,6 +639,9 @@ fn c01_like(tier: Tier, oracles: Oracles, with_drop: bool) -> Vec<Scenario> {
     }
     // subset driver
     out.extend(subset_scenarios(tier, oracles, 14));
+    if oracles.probe_each_op.is_none() {
+        out.extend(window_subset_scenarios(tier, oracles));
+    }
     if !q {
         out.extend(subset_split_scenarios(oracles, 12));
     } else {
